@@ -260,11 +260,20 @@ impl Compiled {
                 break true;
             }
             if p == n {
-                let t = auto.step(&mut self.arena, s, Sym::Eoi);
-                if t == DEAD {
-                    break false;
-                }
-                break !auto.accepts(&mut self.arena, t).is_empty();
+                // nothing but further end-of-input markers can follow: walk the `$` chain
+                let mut seen = vec![s];
+                let mut cur = s;
+                break loop {
+                    let t = auto.step(&mut self.arena, cur, Sym::Eoi);
+                    if t == DEAD || seen.contains(&t) {
+                        break false;
+                    }
+                    if !auto.accepts(&mut self.arena, t).is_empty() {
+                        break true;
+                    }
+                    seen.push(t);
+                    cur = t;
+                };
             }
             let sym = self.sym_of(input[p]);
             let t = auto.step(&mut self.arena, s, sym);
@@ -361,9 +370,19 @@ impl Compiled {
                 sc.saw_eoi = true;
                 sc.furthest = p;
                 sc.consumed_on_fail = p - pos;
-                if ee {
-                    let t = auto.step(&mut self.arena, s, Sym::Eoi);
-                    if t != DEAD {
+                // nothing but further end-of-input markers can follow: walk the `$` chain; the first
+                // chain state with a passing rule decides (well-formed rules have one `$` per path,
+                // so at most one chain state accepts)
+                let mut seen = vec![s];
+                let mut cur = s;
+                while ee && best.map(|b| !b.1).unwrap_or(true) {
+                    let t = auto.step(&mut self.arena, cur, Sym::Eoi);
+                    if t == DEAD || seen.contains(&t) {
+                        break;
+                    }
+                    seen.push(t);
+                    cur = t;
+                    {
                         let acc = auto.accepts(&mut self.arena, t);
                         let mut found = None;
                         let mut passing = 0;
